@@ -357,6 +357,8 @@ def s_op(o):
         return b"I" + s_str(o["text"]) + s_bool(o.get("asdefaults", False))
     if o["op"] == "writeini":
         return b"W" + s_nat(o["iniopts"])
+    if o["op"] == "help": return b"H"
+    if o["op"] == "man": return b"M"
     raise ValueError(o)
 
 
@@ -365,7 +367,8 @@ def s_cfg(c):
     hk = {"none": b"n", "identity": b"i", "dropnext": b"d", "error": b"e"}[c["handler"]]
     return (s_str(c["name"]) + s_bool(o["help"]) + s_bool(o["passdd"]) + s_bool(o["ignore"]) + s_bool(o["print"]) + s_bool(o["passafter"])
             + s_str(c["nsdelim"]) + s_str(c["envdelim"]) + hk + s_bool(c["cmdhandler"]) + s_str(c.get("usage", b""))
-            + s_list([s_str(k) + s_str(v) for k, v in c.get("env", [])]) + s_nat(c.get("cols", 80)))
+            + s_list([s_str(k) + s_str(v) for k, v in c.get("env", [])]) + s_nat(c.get("cols", 80))
+            + s_str(c.get("shortdesc", b"")) + s_str(c.get("longdesc", b"")))
 
 
 def s_oracle(oracle):
@@ -398,4 +401,4 @@ def scenario_bytes(sc, oracle):
 def pack_coq(b):
     """(len, [7-byte big-endian words]) as a Coq term of type nat * list int"""
     words = [str(int.from_bytes(b[i:i + 7], "big")) for i in range(0, len(b), 7)]
-    return "(%d%%nat, [%s]%%uint63)" % (len(b), "; ".join(words))
+    return "(N.to_nat %d%%N, [%s]%%uint63)" % (len(b), "; ".join(words))
